@@ -31,13 +31,14 @@ def wl_key(wl):
 
 class Spec:
     def __init__(self, name, build, values, fwd, bwd, grid_dep=True, post=(), pol=(0,), dtypes=('complex128',),
-                 skip=None, lens=False, both=True, proto=False, exclusive_post=False):
+                 skip=None, lens=False, both=True, proto=False, exclusive_post=False, wl_dep=True):
         self.name = name
         self.build = build            # dict name -> value  ->  element
         self.values = values          # name -> list of candidate values (index 0 = constructed with)
         self.fwd = fwd                # grids for forward requests
         self.bwd = bwd                # grids for backward requests
-        self.grid_dep = grid_dep
+        self.grid_dep = grid_dep      # declared dependencies (used when the private flags cannot be read)
+        self.wl_dep = wl_dep
         self.post = set(post)         # setter names that are not constructor arguments
         self.pol = pol                # allowed polarisation states of the test wavefronts
         self.dtypes = dtypes
@@ -143,7 +144,7 @@ def specs():
     S = []
     S.append(Spec('FraunhoferPropagator',
                   lambda v: hp.FraunhoferPropagator(P[0], F[0], v['focal_length']),
-                  {'focal_length': [1.0, 2.0, 0.5, w_scalar]}, PN, F, pol=(0, 1, 2), dtypes=cplx, lens=True))
+                  {'focal_length': [1.0, 2.0, 0.5, w_scalar]}, PN + F, PN + F, pol=(0, 1, 2), dtypes=cplx, lens=True))
     S.append(Spec('FresnelPropagator',
                   lambda v: hp.FresnelPropagator(P[0], v['distance'], v['num_oversampling'], v['zero_padding'], v['refractive_index']),
                   {'distance': [0.5, 0.03125, 2.0], 'num_oversampling': [2, 1, 3], 'zero_padding': [2, 1, 3],
@@ -333,20 +334,41 @@ class Hist:
         self.spec = spec
         self.case = case
         self.params = {n: 0 for n in spec.values}
-        self.elem = spec.make(self.params)
-        self.grid_dep = bool(self.elem._grid_dependent)
-        self.wl_dep = bool(self.elem._wavelength_dependent)
-        if case.get('maxN'):
-            self.elem._max_in_cache = int(case['maxN'])
-        self.maxN = self.elem._max_in_cache
+        self.state_issues = []   # internal state that could not be read / interpreted (broken correspondence)
+        self.bad = []            # (key, what, step)
+        self.elem = None
         self.handed = []
-        orig = self.elem.get_instance_data
+        self.grid_dep = bool(spec.grid_dep) if spec.grid_dep is not None else True
+        self.wl_dep = bool(spec.wl_dep)
+        self.maxN = int(case['maxN']) if case.get('maxN') else 11
+        try:
+            self.elem = spec.make(self.params)
+        except Exception as e:
+            self.bad.append(('raises %s %s' % (type(e).__name__, spec.name.split('-')[0]),
+                             'constructing the element raised %r' % (e,), 0))
+        if self.elem is not None:
+            # private flags, read from outside; fall back to the declared ones
+            try:
+                self.grid_dep = bool(self.elem._grid_dependent)
+                self.wl_dep = bool(self.elem._wavelength_dependent)
+            except Exception as e:
+                self.state_issue('cannot read _grid_dependent/_wavelength_dependent: %r' % (e,))
+            try:
+                if case.get('maxN'):
+                    self.elem._max_in_cache = int(case['maxN'])
+                self.maxN = int(self.elem._max_in_cache)
+            except Exception as e:
+                self.state_issue('cannot read/set _max_in_cache: %r' % (e,))
+            try:
+                orig = self.elem.get_instance_data
 
-        def rec(i, o, w):
-            r = orig(i, o, w)
-            self.handed.append(r)
-            return r
-        self.elem.get_instance_data = rec
+                def rec(i, o, w):
+                    r = orig(i, o, w)
+                    self.handed.append(r)
+                    return r
+                self.elem.get_instance_data = rec
+            except Exception as e:
+                self.state_issue('cannot wrap get_instance_data: %r' % (e,))
         self.gid = {}
         self.wid = {wl_key(w): k for k, w in enumerate(WLS)}
         if len(self.wid) != len(WLS):
@@ -356,12 +378,14 @@ class Hist:
         self.nsets = 0
         self.lines = ['C05 new %d %d %d' % (self.grid_dep, self.wl_dep, self.maxN)]
         self.expect = [None]     # per line: None or dict of real observations
-        self.bad = []            # (key, what, step)
         self.counts = {}
         self.pending_setter = None
 
     def count(self, k):
         self.counts[k] = self.counts.get(k, 0) + 1
+
+    def state_issue(self, msg):
+        self.state_issues.append(msg)
 
     def G(self, grid):
         if grid is None:
@@ -372,10 +396,16 @@ class Hist:
         return str(self.gid[h])
 
     def gname(self, h):
-        return '-' if h is None else str(self.gid.get(h, '?'))
+        try:
+            return '-' if h is None else str(self.gid.get(h, '?'))
+        except TypeError:
+            return '?'
 
     def wname(self, k):
-        return '-' if k is None else str(self.wid.get(k, '?'))
+        try:
+            return '-' if k is None else str(self.wid.get(k, '?'))
+        except TypeError:
+            return '?'
 
     def inst_id(self, v):
         for k, x in enumerate(self.insts):
@@ -386,12 +416,33 @@ class Hist:
         return len(self.insts) - 1
 
     def real_state(self):
+        """The private cache as the model prints it; {} (plus a recorded state issue) when it cannot be
+        read or has a shape the model does not know."""
         el = self.elem
-        ent = ['%s,%s,%s:%d' % (self.gname(k[0]), self.gname(k[1]), self.wname(k[2]), self.inst_id(v))
-               for k, v in el._instance_data_cache.items()]
-        return {'num': str(el._num_in_cache), 'cache': ';'.join(ent)}
+        out = {}
+        try:
+            out['num'] = str(int(el._num_in_cache))
+        except Exception as e:
+            self.state_issue('cannot read _num_in_cache: %r' % (e,))
+        try:
+            ent = []
+            for k, v in el._instance_data_cache.items():
+                if not isinstance(k, tuple) or len(k) != 3:
+                    raise ValueError('cache key %r is not an (input, output, wavelength) triple' % (k,))
+                ent.append('%s,%s,%s:%d' % (self.gname(k[0]), self.gname(k[1]), self.wname(k[2]), self.inst_id(v)))
+            out['cache'] = ';'.join(ent)
+        except Exception as e:
+            self.state_issue('cannot interpret _instance_data_cache: %r' % (e,))
+        return out
 
     def request_line(self, gi, go, wl, fresh):
+        try:
+            return self._request_line(gi, go, wl, fresh)
+        except Exception as e:
+            self.state_issue('cannot resolve the grids of a request on a fresh element: %r' % (e,))
+            return None
+
+    def _request_line(self, gi, go, wl, fresh):
         a = str(self.wid[wl_key(wl)])
         ri, ro = '-', '-'
         ii = gi
@@ -404,19 +455,28 @@ class Hist:
 
     def observe(self, line, status, nhanded0):
         obs = {'status': status}
+        if line is None:
+            return
         if status == 'ok' and len(self.handed) > nhanded0:
             v = self.handed[nhanded0]
             obs['id'] = str(self.inst_id(v))
             obs['ver'] = str(self.stamp[self.inst_id(v)])
-            wk = self.wname(wl_key(v.wavelength)) if self.wl_dep else '-'
-            if self.grid_dep:
-                obs['key'] = '%s,%s,%s' % (self.G(v.input_grid), self.G(v.output_grid), wk)
-            else:
-                obs['key'] = '-,-,%s' % wk
+            try:
+                wk = self.wname(wl_key(v.wavelength)) if self.wl_dep else '-'
+                if self.grid_dep:
+                    obs['key'] = '%s,%s,%s' % (self.G(v.input_grid), self.G(v.output_grid), wk)
+                else:
+                    obs['key'] = '-,-,%s' % wk
+            except Exception as e:
+                self.state_issue('cannot interpret the instance handed out: %r' % (e,))
         if status == 'ok':
             obs.update(self.real_state())
         self.lines.append(line)
         self.expect.append(obs)
+
+    def raises(self, exc, where, step):
+        self.bad.append(('raises %s %s' % (type(exc).__name__, self.spec.name.split('-')[0]),
+                         '%s raised %r' % (where, exc), step))
 
     def fail(self, clause, what, step):
         name = self.spec.name.split('-')[0]
@@ -435,11 +495,17 @@ class Hist:
     def run(self):
         import hcipy as hp  # noqa
         spec = self.spec
+        if self.elem is None:
+            return
         for step, op in enumerate(self.case['ops']):
             kind = op[0]
             self.count('op:' + kind)
             if kind == 'clear':
-                self.elem.clear_cache()
+                try:
+                    self.elem.clear_cache()
+                except Exception as e:
+                    self.raises(e, 'clear_cache()', step)
+                    return
                 self.lines.append('C05 clear')
                 self.expect.append(dict(status='ok', **self.real_state()))
                 continue
@@ -458,7 +524,11 @@ class Hist:
                 self.lines.append('C05 set')
                 self.expect.append(dict(status='ok', **self.real_state()))
                 continue
-            fresh = spec.make(self.params)
+            try:
+                fresh = spec.make(self.params)
+            except Exception as e:
+                self.raises(e, 'constructing a fresh element with the current parameter values', step)
+                return
             fresh2 = fresh
             n0 = len(self.handed)
             if kind in ('fwd', 'bwd'):
@@ -481,11 +551,11 @@ class Hist:
                     if type(e1) is not type(e2):
                         self.fail('exception-mismatch', 'shared element: %r, fresh element: %r' % (e1, e2), step)
                         return
+                    # shared and fresh element raise alike: not history dependence, but the element fails
+                    # on an input the property quantifies over
                     self.count('both-raise:' + type(e1).__name__)
-                    self.pending_setter = None
-                    if len(self.handed) > n0:      # the instance was handed out before the failure
-                        self.observe(line, 'ok', n0)
-                    continue
+                    self.raises(e1, '%s on grid #%d at wavelength %r (a fresh element raises too)' % (kind, g, wl), step)
+                    return
                 d = compare_wavefronts(r1, r2, tol_for(dt))
                 if d:
                     self.fail('result-differs', '%s on grid #%d at wavelength %r: %s' % (kind, g, wl, d), step)
@@ -511,9 +581,13 @@ class Hist:
                         self.fail('exception-mismatch', 'shared element: %r, fresh element: %r' % (e1, e2), step)
                         return
                     self.count('both-raise:' + type(e1).__name__)
-                    self.pending_setter = None
-                    continue
-                d = compare_instances(v1, v2, self.grid_dep)
+                    self.raises(e1, 'get_instance_data(grid #%s, grid #%s, %r) (a fresh element raises too)' % (op[1], op[2], wl), step)
+                    return
+                try:
+                    d = compare_instances(v1, v2, self.grid_dep)
+                except Exception as e:
+                    self.state_issue('cannot compare InstanceData objects: %r' % (e,))
+                    d = None
                 if d:
                     self.fail('instance-differs', 'get_instance_data(grid #%s, grid #%s, %r): %s' % (op[1], op[2], wl, d), step)
                 self.pending_setter = None
@@ -562,8 +636,9 @@ def gen_case(rng, spec, el_setters, big):
     fsel = [int(x) for x in rng.choice(len(spec.fwd), size=nf, replace=False)]
     nb = int(rng.integers(1, min(len(spec.bwd), 4) + 1))
     bsel = [int(x) for x in rng.choice(len(spec.bwd), size=nb, replace=False)]
-    if not spec.lens:
-        bsel = list(dict.fromkeys(fsel[:2] + bsel))      # backward mostly on grids also used forward
+    # every element (the lens too: it is grid agnostic) sees the same grids as forward input and as
+    # backward output; fwd and bwd pools are the same list, so equal indices are equal grids
+    bsel = list(dict.fromkeys(fsel[:2] + bsel))
     nw = int(rng.integers(1, 4))
     wsel = [int(x) for x in rng.choice(len(WLS), size=nw, replace=False)]
     maxN = [None, 1, 2, 3, 4][int(rng.choice(5, p=[0.3, 0.15, 0.25, 0.2, 0.1]))]
@@ -607,11 +682,18 @@ def directed():
     D = []
     fw = lambda g, w=0, dt='complex128', pol=0, seed=7: ['fwd', g, w, dt, pol, seed]   # noqa: E731
     bw = lambda g, w=0, dt='complex128', pol=0, seed=9: ['bwd', g, w, dt, pol, seed]   # noqa: E731
-    # D3: lens propagator on a second pupil grid of the same shape
-    D.append({'spec': 'FraunhoferPropagator', 'maxN': None, 'style': 'directed', 'ops': [fw(0), fw(1), fw(0), bw(0), bw(1), fw(3)]})
-    D.append({'spec': 'FraunhoferPropagator', 'maxN': None, 'style': 'directed', 'ops': [['both', 1, 1, 0], fw(1), bw(1), bw(0), fw(0)]})
+    # D3: lens propagator on a second pupil grid of the same shape.  Lens pools: 0-7 pupil grids, 8-12 focal grids.
+    F0, F1 = 8, 9
+    D.append({'spec': 'FraunhoferPropagator', 'maxN': None, 'style': 'directed', 'ops': [fw(0), fw(1), fw(0), bw(F0), bw(F1), fw(3)]})
+    D.append({'spec': 'FraunhoferPropagator', 'maxN': None, 'style': 'directed', 'ops': [['both', 1, F1, 0], fw(1), bw(F1), bw(F0), fw(0)]})
     D.append({'spec': 'FraunhoferPropagator', 'maxN': 2, 'style': 'directed',
-              'ops': [fw(0), fw(1), bw(0), fw(2), fw(0), bw(0), fw(1, 1), fw(1, 0), ['set', 'focal_length', 1], fw(1), bw(0)]})
+              'ops': [fw(0), fw(1), bw(F0), fw(2), fw(0), bw(F0), fw(1, 1), fw(1, 0), ['set', 'focal_length', 1], fw(1), bw(F0)]})
+    # the same grid as forward input and as backward output at one wavelength (input grid != output grid):
+    # a forward and a backward request must never share a cache entry
+    D.append({'spec': 'FraunhoferPropagator', 'maxN': None, 'style': 'directed', 'ops': [fw(F0), bw(F0), fw(0), bw(0), fw(F0), bw(F0)]})
+    D.append({'spec': 'FraunhoferPropagator', 'maxN': None, 'style': 'directed', 'ops': [bw(F0), fw(F0), bw(1), fw(1), bw(F0)]})
+    D.append({'spec': 'FraunhoferPropagator', 'maxN': 1, 'style': 'directed', 'ops': [bw(0), fw(0), fw(F1, 2), bw(F1, 2), bw(0)]})
+    D.append({'spec': 'Magnifier', 'maxN': None, 'style': 'directed', 'ops': [fw(0), bw(0), bw(1), fw(1), ['set', 'magnification', 1], bw(0), fw(0)]})
     # default cache size overflow: 4 grids x 3 wavelengths = 12 > 11 instances
     ov = [fw(g, w) for w in range(3) for g in range(4)]
     D.append({'spec': 'Apodizer', 'maxN': None, 'style': 'directed', 'ops': ov + ov[:3] + [bw(0), bw(1, 2)]})
@@ -674,13 +756,19 @@ def fourier_field(obj, backward, dtype, tshape, seed):
 def run_fourier(name, ops):
     """ops: [backward(0/1), dtype, tshape, seed].  Returns (failure or None, memo observations)."""
     O = fourier_objects()
-    shared = O[name]()
     memo = []
+    try:
+        shared = O[name]()
+    except Exception as e:
+        return 'RAISES %s: constructing the object raised %r' % (type(e).__name__, e), memo
     for step, (back, dt, ts, seed) in enumerate(ops):
-        fresh = O[name]()
-        f1 = fourier_field(shared, back, dt, ts, seed)
-        f2 = fourier_field(fresh, back, dt, ts, seed)
-        keep = f1.copy()
+        try:
+            fresh = O[name]()
+            f1 = fourier_field(shared, back, dt, ts, seed)
+            f2 = fourier_field(fresh, back, dt, ts, seed)
+            keep = f1.copy()
+        except Exception as e:
+            return 'RAISES %s: step %d: preparing the call raised %r' % (type(e).__name__, step, e), memo
         r1 = e1 = r2 = e2 = None
         try:
             r1 = (shared.backward if back else shared.forward)(f1)
@@ -693,7 +781,8 @@ def run_fourier(name, ops):
         if e1 is not None or e2 is not None:
             if type(e1) is not type(e2):
                 return ('step %d: shared object %r, fresh object %r' % (step, e1, e2)), memo
-            continue
+            return 'RAISES %s: step %d (%s, %s, tensor %s): shared and fresh object raise %r' % (
+                type(e1).__name__, step, 'backward' if back else 'forward', dt, tuple(ts), e1), memo
         tol = 2e-4 if dt in ('complex64', 'float32') else 1e-9
         d = compare_values(np.asarray(r1), np.asarray(r2), tol)
         if d is None and r1.dtype != r2.dtype:
@@ -704,8 +793,11 @@ def run_fourier(name, ops):
             return ('step %d (%s, %s, tensor %s): %s' % (step, 'backward' if back else 'forward', dt, tuple(ts), d)), memo
         if type(shared).__name__ == 'MatrixFourierTransform':
             tag = {'complex128': 128, 'complex64': 64, 'float64': 128, 'float32': 64}[dt]
-            md = shared.matrices_dtype
-            memo.append((tag, 0 if shared.precompute_matrices else 1, '-' if md is None else str(np.dtype(md).itemsize * 8)))
+            try:
+                md = shared.matrices_dtype
+                memo.append((tag, 0 if shared.precompute_matrices else 1, '-' if md is None else str(np.dtype(md).itemsize * 8)))
+            except Exception as e:       # private memo state unreadable: broken correspondence, not a crash
+                memo.append((tag, None, 'unreadable: %r' % (e,)))
     return None, memo
 
 
@@ -714,9 +806,21 @@ def run_fourier(name, ops):
 def check_case(ctx, case, lines_out):
     spec = spec_by_name(case['spec'])
     h = Hist(spec, case)
-    h.run()
+    try:
+        h.run()
+    except MachineryError:
+        raise
+    except Exception as e:
+        # not one of the guarded calls into the element: the observation itself broke. Broken
+        # correspondence for this history, never a crash of the run.
+        import traceback
+        h.state_issue('history aborted by %r at %s' % (e, traceback.format_exc().strip().split('\n')[-3].strip()))
     for k, v in h.counts.items():
         ctx.count(k, v)
+    if h.state_issues:
+        ctx.count('histories_with_unreadable_state')
+        ctx.disagree('cache-state', {'spec': case['spec'], 'maxN': case['maxN'], 'ops': case['ops'][:8],
+                                     'issue': h.state_issues[0], 'n_issues': len(h.state_issues)})
     for key, what, step in h.bad:
         small = dict(case)
         small['ops'] = case['ops'][:step + 1]
@@ -772,7 +876,13 @@ def run(ctx):
     setters = {}
     skipped = {}
     for spec in specs():
-        el = spec.make({n: 0 for n in spec.values})
+        try:
+            el = spec.make({n: 0 for n in spec.values})
+        except Exception as e:      # the constructor of the code under test raises: a violation, not a crash
+            ctx.violation('raises %s %s' % (type(e).__name__, spec.name.split('-')[0]),
+                          'constructing the element raised %r' % (e,), {'spec': spec.name, 'maxN': None, 'ops': []})
+            setters[spec.name] = []
+            continue
         names = public_setters(el)
         use = []
         for n in names:
@@ -809,6 +919,12 @@ def run(ctx):
         ctx.count('style:' + case['style'])
         ctx.count('maxN:%s' % case['maxN'])
         ctx.count('instances_created', len(h.insts))
+        fw_set = set((op[1], op[2]) for op in case['ops'] if op[0] == 'fwd')
+        bw_set = set((op[1], op[2]) for op in case['ops'] if op[0] == 'bwd')
+        if fw_set & bw_set:
+            ctx.count('histories_same_grid_fwd_and_bwd')
+            if spec_by_name(case['spec']).lens:
+                ctx.count('histories_same_grid_fwd_and_bwd_lens')
         nontrivial = len(h.insts) >= 1 and nreq > len(h.insts)
         ctx.case({'spec': case['spec'], 'maxN': case['maxN'], 'ops': case['ops'][:6]} if nontrivial else None,
                  nontrivial_key=(case['spec'], case['style'], case['maxN'], len(case['ops']), len(reqs)) if nontrivial else None)
@@ -827,12 +943,18 @@ def run(ctx):
             bad, memo = run_fourier(name, ops)
             ctx.count('fourier:' + name.split(' ')[0])
             ctx.case(None, nontrivial_key=('fourier', name, j))
-            if bad:
+            if bad and bad.startswith('RAISES '):
+                ctx.violation('raises %s %s' % (bad.split(' ')[1].rstrip(':'), name.split(' ')[0]), '%s: %s' % (name, bad),
+                              {'fourier': name, 'ops': ops})
+            elif bad:
                 ctx.violation('fourier-history %s' % name.split(' ')[0], '%s: %s' % (name, bad), {'fourier': name, 'ops': ops})
             if memo:
                 memo_lines.append('C05 memo reset')
                 memo_expect.append(None)
                 for tag, drop, slot in memo:
+                    if drop is None:
+                        ctx.disagree('fourier-state', {'object': name, 'issue': slot})
+                        break
                     memo_lines.append('C05 memo get %d %d' % (tag, drop))
                     memo_expect.append((tag, slot, name))
     out = ctx.model(memo_lines)
